@@ -1,10 +1,117 @@
 /-
-  Driver ops for C13.
+  Driver ops for C13: the value / entity / request JSON codec models (Model/Json/Value.lean).
+
+    vjson-encode  {"value": v}            → canonical tree of `encodeValue v` (arrays sorted: a value array is a set)
+    vjson-decode  {"doc": "<json text>"}  → `ok <showValue>` | `err` ;  `skip …` when the tree does not determine Go's behaviour
+    uid-decode    {"doc"}                 → typed position `EntityUID.UnmarshalJSON`
+    ext-decode    {"kind","doc"}          → typed position `Decimal/Datetime/Duration/IPAddr.UnmarshalJSON`
+    ejson-encode  {"entities": es}        → canonical tree of `EntityMap.MarshalJSON`
+    ejson-decode  {"doc"}                 → canonical rendering of the decoded entity map
+    rjson-encode / rjson-decode           → requests
+    coerce        {"value": v, "type": t} → schema-guided coercion of one value (`coerceValue`)
 -/
 import CedarGo.Driver.Ops.Core
+import CedarGo.Model.Json.Value
 namespace CedarGo.Driver
-open Lean CedarGo
+open Lean CedarGo CedarGo.JsonModel
 
-def c13Ops : List (String × Handler) := []
+/-- canonical rendering with every array sorted (value documents: arrays are sets) -/
+partial def canonVC13 : J → String
+  | .arr xs => "[" ++ ",".intercalate (sortStrs (xs.map canonVC13)) ++ "]"
+  | .obj kvs => "{" ++ ",".intercalate (kvs.map fun kv => hexStr kv.1 ++ ":" ++ canonVC13 kv.2) ++ "}"
+  | j => j.canon
+
+def parseDocC13 (j : Json) : D J := do
+  let s ← jStr (← field j "doc")
+  match Json.parse s with
+  | .ok t => .ok (J.ofJson t)
+  | .error e => .error s!"unparsable-doc {e}"
+
+def showRC13 {α} (sh : α → String) : R α → D String
+  | .ok a => .ok ("ok " ++ sh a)
+  | .error .reject => .ok "err"
+  | .error .panic => .ok "panic"
+  | .error .unmodelled => .error "tree-does-not-determine"
+
+def showUIDC13 (u : UID) : String := s!"E{hex u.1}:{hex u.2}"
+
+def showKVsC13 (kvs : List (String × Value)) : String := showValue (.record kvs)
+
+def showEntityC13 (e : UID × EntityData) : String :=
+  showUIDC13 e.1 ++ " parents=[" ++ ",".intercalate (sortDedup (e.2.parents.map showUIDC13)) ++ "] attrs=" ++ showKVsC13 e.2.attrs
+    ++ " tags=" ++ showKVsC13 e.2.tags
+
+def showEntitiesC13 (es : Entities) : String := ";".intercalate (sortDedup (es.map showEntityC13))
+
+def showRequestC13 (r : RequestM) : String :=
+  s!"P={showUIDC13 r.principal} A={showUIDC13 r.action} R={showUIDC13 r.resource} C={showKVsC13 r.context}"
+
+def opVJsonEncode : Handler := fun _ j => do
+  let v ← decValue (← field j "value")
+  .ok (canonVC13 (encodeValue v))
+
+def opVJsonDecode : Handler := fun _ j => do
+  showRC13 showValue (decodeValue (← parseDocC13 j))
+
+def opUIDDecode : Handler := fun _ j => do
+  showRC13 showUIDC13 (decodeUID (← parseDocC13 j))
+
+def opExtDecode : Handler := fun _ j => do
+  let kind ← jStr (← field j "kind")
+  let t ← parseDocC13 j
+  let r ← match kind with
+    | "decimal" => pure (decodeDecimalTyped t)
+    | "datetime" => pure (decodeDatetimeTyped t)
+    | "duration" => pure (decodeDurationTyped t)
+    | "ip" => pure (decodeIPTyped t)
+    | _ => .error "bad kind"
+  showRC13 showValue r
+
+def opEJsonEncode : Handler := fun _ j => do
+  let es ← decEntities (← field j "entities")
+  .ok (canonVC13 (encodeEntities es))
+
+def opEJsonDecode : Handler := fun _ j => do
+  showRC13 showEntitiesC13 (decodeEntities (← parseDocC13 j))
+
+def decRequestC13 (j : Json) : D RequestM := do
+  let kvs ← match ← decValue (← field j "context") with
+    | .record kvs => pure kvs
+    | _ => .error "context not a record"
+  .ok ⟨← decUID (← field j "principal"), ← decUID (← field j "action"), ← decUID (← field j "resource"), kvs⟩
+
+def opRJsonEncode : Handler := fun _ j => do
+  let r ← decRequestC13 (← field j "request")
+  .ok (canonVC13 (encodeRequest r))
+
+def opRJsonDecode : Handler := fun _ j => do
+  showRC13 showRequestC13 (decodeRequest (← parseDocC13 j))
+
+partial def decSTyC13 (j : Json) : D STy := do
+  match ← jArr j with
+  | [.str "str"] => .ok .str
+  | [.str "long"] => .ok .long
+  | [.str "bool"] => .ok .bool
+  | [.str "entity", t] => .ok (.entity (← jHex t))
+  | [.str "ext", .str n] => .ok (.ext n)
+  | [.str "set", t] => .ok (.set (← decSTyC13 t))
+  | [.str "record", attrs] => do
+    let as ← (← jArr attrs).mapM fun a => do
+      match ← jArr a with
+      | [k, t] => .ok ((← jHex k), (← decSTyC13 t))
+      | _ => .error "bad attr"
+    .ok (.record as)
+  | _ => .error "bad type"
+
+/-- `coerce {"value": v, "type": t}`: `coerceValue` of x/exp/types (hook `VerifCoerceValue`) -/
+def opCoerceC13 : Handler := fun _ j => do
+  let v ← decValue (← field j "value")
+  let t ← decSTyC13 (← field j "type")
+  .ok (showValue (coerceValue t v))
+
+def c13Ops : List (String × Handler) :=
+  [("vjson-encode", opVJsonEncode), ("vjson-decode", opVJsonDecode), ("uid-decode", opUIDDecode),
+   ("ext-decode", opExtDecode), ("ejson-encode", opEJsonEncode), ("ejson-decode", opEJsonDecode),
+   ("rjson-encode", opRJsonEncode), ("rjson-decode", opRJsonDecode), ("coerce", opCoerceC13)]
 
 end CedarGo.Driver
